@@ -11,7 +11,9 @@ tasks and drains the queue.  The fault-free executions are included.
 
 from __future__ import annotations
 
+import types
 from typing import Any, Callable
+from unittest import mock
 
 from verif import apps, tasks, vclock, whitebox
 from verif.core import Ctx, Part, merge_parts, ncpu, pmap
@@ -65,6 +67,8 @@ class Injector:
                 return orig(*a, **k)
             if self.dead:
                 raise Crash()
+            if name == "retrieve_invocation" and not whitebox.queue_ids(self.app):
+                return orig(*a, **k)  # polling an empty queue changes nothing: not a fault point
             idx = self.count
             self.count += 1
             lab = label
@@ -98,13 +102,13 @@ class Injector:
 
 
 ROLES = ["client-single", "client-batch", "claim-plain", "claim-blocking", "claim-concurrency-reroute", "work-success", "work-failure", "work-retry",
-         "work-not-authorised", "stop-kill-reroute", "recover-pending", "recover-running"]
+         "work-not-authorised", "stop-kill-reroute", "recover-pending", "recover-running", "ppr-worker-loop", "mtr-worker-loop"]
 
 
 class Scenario:
     """Builds the pre-state of a role and returns (operation, accepted invocation ids -> body argument)."""
 
-    def __init__(self, kind: str, role: str, clock: vclock.VClock) -> None:
+    def __init__(self, kind: str, role: str, clock: vclock.VClock, variant: int = 0) -> None:
         from pynenc import context
         from pynenc.conf.config_task import ConcurrencyControlType as CC
         from pynenc.exceptions import RetryError
@@ -119,6 +123,7 @@ class Scenario:
         self.accepted: dict[str, Any] = {}
         self.late_accept: Callable[[], dict[str, Any]] | None = None
         self.live_cleanup: list[Callable[[], None]] = []
+        self.live_ids: list[str] = []  # runners that stay alive and keep reporting heartbeats
         plain = app.task(tasks.ident, max_retries=2)
         cc = app.task(tasks.other, running_concurrency=CC.TASK, reroute_on_concurrency_control=True)
         self.attempts: dict[Any, int] = {}
@@ -141,11 +146,12 @@ class Scenario:
             self.late_accept = lambda: {str(holder["inv"].invocation_id): "c1"} if "inv" in holder else {}
         elif role == "client-batch":
             holder = {}
-            self.op = lambda: holder.update(grp=plain.parallelize([("b1",), ("b2",), ("b3",)]))
+            self.op = lambda: holder.update(grp=plain.parallelize([(f"b{i}",) for i in range(1, 4 + variant)]))
             self.late_accept = lambda: {str(i.invocation_id): i.arguments.kwargs["x"] for i in holder["grp"].invocations} if "grp" in holder else {}
         elif role == "claim-plain":
-            submit(plain, "p1")
-            self.op = lambda: [i.run(W) for i in list(app.orchestrator.get_invocations_to_run(1, W))]
+            for i in range(1, 2 + variant):
+                submit(plain, f"p{i}")
+            self.op = lambda: [i.run(W) for i in list(app.orchestrator.get_invocations_to_run(1 + variant, W))]
         elif role == "claim-blocking":
             parent = submit(plain, "parent")
             pinv = claim_by(parent, P)
@@ -187,18 +193,94 @@ class Scenario:
             app.orchestrator.set_invocation_status(inv.invocation_id, S.RUNNING, T)
             self.op = lambda: runner._kill_and_reroute(inv.invocation_id)
         elif role == "recover-pending":
-            a, b = submit(plain, "rp1"), submit(plain, "rp2")
-            claim_by(a, D)
-            claim_by(b, D)
+            for x in [submit(plain, f"rp{i}") for i in range(1, 3 + variant)]:
+                claim_by(x, D)
             clock.advance(6.0)
             self.op = self._recovery_op("pending")
         elif role == "recover-running":
-            a, b = submit(plain, "rr1"), submit(plain, "rr2")
-            for x in (a, b):
+            for x in [submit(plain, f"rr{i}") for i in range(1, 3 + variant)]:
                 claim_by(x, D)
                 app.orchestrator.set_invocation_status(x.invocation_id, S.RUNNING, D)
             clock.advance(61.0)
             self.op = self._recovery_op("running")
+        elif role == "ppr-worker-loop":
+            # the real PersistentProcessRunner worker entry point, in-process: one fetch defers k2 (its task is busy on
+            # the live runner P) and runs p3; the deferred one must be back in the queue afterwards
+            from pynenc.runner.persistent_process_runner import PersistentProcessRunner, persistent_process_main
+
+            parent = PersistentProcessRunner(app, runner_context=apps.rctx("PPR", "PersistentProcessRunner"))
+            app.runner = parent
+            self.live_ids.append(parent.runner_context.runner_id)
+            first = submit(cc, "k1")
+            finv = claim_by(first, P)
+            app.orchestrator.set_invocation_status(first.invocation_id, S.RUNNING, P)
+            submit(cc, "k2")
+            submit(plain, "p3")
+            self.live_cleanup.append(lambda: app.orchestrator.set_invocation_result(finv, "k1-done", P))
+            self.accepted.pop(str(first.invocation_id))
+            polls = [0]
+
+            class StopEv:
+                def is_set(self_inner) -> bool:  # noqa: N805
+                    polls[0] += 1
+                    return polls[0] > 6 or any(e == "exit" and pl == "p3" for e, _, pl in tasks.EXEC_LOG)
+
+                def set(self_inner) -> None:  # noqa: N805
+                    polls[0] = 99
+
+            def op_ppr() -> None:
+                with mock.patch("signal.signal"):
+                    persistent_process_main(app, runner_cache={}, stop_event=StopEv(), parent_runner_ctx_json=parent.runner_context.to_json(), child_runner_id="PPRW1")
+
+            self.op = op_ppr
+        elif role == "mtr-worker-loop":
+            # the real MultiThreadRunner worker entry point, in-process, task threads run inline (a process crash kills
+            # them together with the loop); the parent runner stays alive and keeps reporting its own heartbeat
+            from pynenc.runner import thread_runner as tr_mod
+            from pynenc.runner.multi_thread_runner import MultiThreadRunner, thread_runner_process_main
+
+            parent = MultiThreadRunner(app, runner_context=apps.rctx("MTR", "MultiThreadRunner"))
+            app.runner = parent
+            self.live_ids.append(parent.runner_context.runner_id)
+            app.orchestrator.register_runner_heartbeats([parent.runner_context.runner_id])
+            submit(plain, "m1")
+            submit(plain, "retry-once")
+            sleeps = [0]
+
+            def sleep_hook(sec: float) -> None:
+                clock.advance(max(0.0, sec))
+                sleeps[0] += 1
+                if sleeps[0] > 12 or not whitebox.queue_ids(app):
+                    raise KeyboardInterrupt
+
+            class SyncThread:
+                name = "inline"
+
+                def __init__(self_inner, target: Any = None, daemon: Any = None, args: Any = (), kwargs: Any = None, name: Any = None) -> None:  # noqa: N805
+                    self_inner.target, self_inner.args = target, args
+
+                def start(self_inner) -> None:  # noqa: N805
+                    try:
+                        self_inner.target(*self_inner.args)
+                    except Exception:  # noqa: BLE001 - a thread swallows the re-raised task error
+                        pass
+
+                def is_alive(self_inner) -> bool:  # noqa: N805
+                    return False
+
+                def join(self_inner, timeout: Any = None) -> None:  # noqa: N805
+                    return None
+
+            def op_mtr() -> None:
+                clock.sleep_hook = sleep_hook
+                fake_threading = types.SimpleNamespace(Thread=SyncThread)
+                try:
+                    with mock.patch("signal.signal"), mock.patch.object(tr_mod, "threading", fake_threading):
+                        thread_runner_process_main(app, parent_ctx_json=parent.runner_context.to_json(), child_runner_id="MTRW1", runner_cache={}, shared_status={})
+                finally:
+                    clock.sleep_hook = None
+
+            self.op = op_mtr
         else:
             raise ValueError(role)
 
@@ -255,7 +337,7 @@ def recover_and_drain(sc: Scenario) -> list[str]:
     for rnd in range(3):
         clock.advance(6.0)
         clock.advance(61.0)
-        app.orchestrator.register_runner_heartbeats([S_.runner_id])
+        app.orchestrator.register_runner_heartbeats([S_.runner_id, *sc.live_ids])
         context.set_current_app(app)
         context.set_runner_context(app.app_id, S_)
         try:
@@ -286,59 +368,164 @@ def completions() -> dict[Any, int]:
     return out
 
 
-def shard(kind: str, role: str, known: list[str]) -> dict:
+SURVIVOR_ACTIONS = ["rec_pending", "rec_running", "poll_run", "poll_hold", "run_held", "advance_small", "advance_big", "heartbeat"]
+
+
+def survivors_script(sc: Scenario, script: list[tuple[int, str]]) -> list[str]:
+    """Generated interleaving of two surviving runners before the canonical recovery + drain."""
+    from pynenc import context
+    from pynenc.core_tasks import recover_pending_invocations, recover_running_invocations
+
+    app, clock = sc.app, sc.clock
+    ctxs = [apps.rctx("S"), apps.rctx("S2")]
+    held: list[list[Any]] = [[], []]
+    notes: list[str] = []
+    for who, action in script:
+        me = ctxs[who]
+        context.set_current_app(app)
+        context.set_runner_context(app.app_id, me)
+        try:
+            if action == "rec_pending":
+                recover_pending_invocations()
+            elif action == "rec_running":
+                recover_running_invocations()
+            elif action in ("poll_run", "poll_hold"):
+                invs = list(app.orchestrator.get_invocations_to_run(2, me))
+                if action == "poll_hold":
+                    held[who].extend(invs)
+                else:
+                    for inv in invs:
+                        try:
+                            inv.run(me)
+                        except Exception:  # noqa: BLE001
+                            pass
+            elif action == "run_held":
+                for inv in held[who]:
+                    try:
+                        inv.run(me)
+                    except Exception:  # noqa: BLE001
+                        pass
+                held[who] = []
+            elif action == "advance_small":
+                clock.advance(1.0)
+            elif action == "advance_big":
+                clock.advance(70.0)
+            elif action == "heartbeat":
+                app.orchestrator.register_runner_heartbeats([me.runner_id, *sc.live_ids])
+        except Exception as exc:  # noqa: BLE001
+            notes.append(f"survivor {action} raised {type(exc).__name__}: {exc}"[:160])
+    for who in (0, 1):
+        for inv in held[who]:
+            try:
+                inv.run(ctxs[who])
+            except Exception:  # noqa: BLE001
+                pass
+    return notes
+
+
+def one_case(kind: str, role: str, variant: int, point: tuple[int, str] | None, clock: vclock.VClock, script: list[tuple[int, str]] | None = None) -> dict:
+    clock.us = 1_700_000_000_000_000
+    sc = Scenario(kind, role, clock, variant)
+    inj = Injector(sc.app)
+    inj.crash_at = point
+    outcome = inj.run(sc.op)
+    accepted = dict(sc.accepted)
+    if sc.late_accept is not None and outcome == "completed":
+        accepted.update(sc.late_accept())
+    label = inj.crashed_label or "none"
+    # (i) instant invariant at the crash instant (or after the fault-free operation)
+    state_at_crash: dict[str, str] = {}
+    unsafe = 0
+    for inv_id in accepted:
+        ok, desc = safe_now(sc.app, inv_id)
+        state_at_crash[inv_id] = desc if not ok else f"covered:{desc}"
+        unsafe += 0 if ok else 1
+    notes = survivors_script(sc, script) if script else []
+    notes += recover_and_drain(sc)
+    # (ii) end to end
+    done = completions()
+    failures: list[tuple[str, str]] = []
+    if outcome.startswith("raised") and point is None and role != "work-failure":
+        failures.append((f"faults:{role}:operation-raised", f"[{kind}] fault-free operation {outcome}"))
+    for inv_id, arg in accepted.items():
+        st_ = sc.app.orchestrator.get_invocation_status(inv_id).name
+        needs_body = arg not in ("fail-once",)
+        if st_ not in L.FINAL or (needs_body and done.get(arg, 0) < 1 and st_ != "CONCURRENCY_CONTROLLED_FINAL"):
+            key = f"faults:{role}:{'fault-free:' if point is None else ''}stranded:{state_at_crash[inv_id]}"
+            failures.append((key, f"[{kind}] crash {point[1] if point else ''} effect #{point[0] if point else '-'} ({label}): invocation {arg!r} ends {st_} with {done.get(arg, 0)} completed executions after recovery + drain; at the crash instant it was {state_at_crash[inv_id]}; survivors={script}; notes={notes[:2]}"))
+    return {"outcome": outcome, "label": label, "accepted": len(accepted), "unsafe": unsafe, "failures": failures, "n_effects": inj.count, "log": list(inj.log)}
+
+
+def shard(kind: str, role: str, known: list[str], variant: int = 0) -> dict:
     part = Part("faults", RULE, exhaustive=True)
     clock = vclock.VClock(start_us=1_700_000_000_000_000, tick_us=0)
     cinst = vclock.install(clock)
     try:
-        # reference (fault-free) run: counts the effects
-        sc = Scenario(kind, role, clock)
-        inj = Injector(sc.app)
-        outcome = inj.run(sc.op)
-        n_effects = inj.count
-        ref_log = list(inj.log)
+        ref = one_case(kind, role, variant, None, clock)  # reference (fault-free) run: counts the effects
+        n_effects = ref["n_effects"]
         points: list[tuple[int, str] | None] = [None] + [(k, side) for k in range(n_effects) for side in ("before", "after")]
         for point in points:
-            clock.us = 1_700_000_000_000_000
-            sc = Scenario(kind, role, clock)
-            inj = Injector(sc.app)
-            inj.crash_at = point
-            outcome = inj.run(sc.op)
-            accepted = dict(sc.accepted)
-            if sc.late_accept is not None and outcome == "completed":
-                accepted.update(sc.late_accept())
-            label = inj.crashed_label or "none"
-            # (i) instant invariant at the crash instant (or after the fault-free operation)
-            unsafe = []
-            for inv_id in accepted:
-                ok, desc = safe_now(sc.app, inv_id)
-                if not ok:
-                    unsafe.append((inv_id, desc))
-            notes = recover_and_drain(sc)
-            # (ii) end to end
-            done = completions()
-            lost = []
-            for inv_id, arg in accepted.items():
-                st_ = sc.app.orchestrator.get_invocation_status(inv_id).name
-                needs_body = arg not in ("fail-once",)
-                if st_ not in L.FINAL or (needs_body and done.get(arg, 0) < 1 and st_ != "CONCURRENCY_CONTROLLED_FINAL"):
-                    lost.append((inv_id, arg, st_))
+            r = one_case(kind, role, variant, point, clock)
             inside = point is not None and not (point[0] == 0 and point[1] == "before") and not (point[0] == n_effects - 1 and point[1] == "after")
-            part.case(key=(kind, role, point), nontrivial=inside, classes=[f"backend_{kind}", f"role_{role}", "fault_free" if point is None else f"crash_{point[1]}", f"op_{outcome.split(':')[0]}"],
-                      sample={"backend": kind, "role": role, "point": point, "effect": label, "effects_of_operation": ref_log, "accepted": len(accepted)})
-            if outcome.startswith("raised") and point is None:
-                key = f"faults:{role}:operation-raised"
-                (part.known if key in known else lambda k_: part.violation(k_, f"[{kind}] fault-free operation {outcome}", {"backend": kind, "role": role, "point": point}))(key)
-            for inv_id, arg, st_ in lost:
-                unsafe_desc = dict(unsafe).get(inv_id, "safe-at-crash")
-                key = f"faults:{role}:stranded:{label}:{point[1] if point else 'none'}:{unsafe_desc}"
-                msg = f"[{kind}] crash {point[1] if point else ''} effect #{point[0] if point else '-'} ({label}): invocation {arg!r} ends {st_} with {done.get(arg, 0)} completed executions after recovery + drain; at the crash instant it was {unsafe_desc}; notes={notes[:2]}"
+            part.case(key=(kind, role, variant, point), nontrivial=inside, classes=[f"backend_{kind}", f"role_{role}", "fault_free" if point is None else f"crash_{point[1]}", f"op_{r['outcome'].split(':')[0]}"],
+                      sample={"backend": kind, "role": role, "variant": variant, "point": point, "effect": r["label"], "effects_of_operation": ref["log"], "accepted": r["accepted"]})
+            for key, msg in r["failures"]:
                 if key in known:
                     part.known(key)
                 else:
-                    part.violation(key, msg, {"backend": kind, "role": role, "point": point, "effect": label})
-            if unsafe and not lost:
+                    part.violation(key, msg, {"backend": kind, "role": role, "variant": variant, "point": point, "effect": r["label"]})
+            if r["unsafe"] and not r["failures"]:
                 part.event("instant_invariant_warning_only")
+    finally:
+        cinst.uninstall()
+    return part.dump()
+
+
+RULE_S = (
+    "Hypothesis draws (backend, role, fault point or none, a script of up to 12 actions of two surviving runners: pending / running recovery task, poll-and-run, "
+    "poll-and-hold, run held, clock +1 s / +70 s, heartbeat); the script runs between the crash and the canonical recovery + drain; same oracle; "
+    "non-trivial = script contains a recovery task and a poll by different survivors; distinct = (backend, role, point, script)"
+)
+
+
+def survivors_shard(seed: int, examples: int, known: list[str]) -> dict:
+    import hypothesis
+    from hypothesis import given, strategies as st
+
+    from verif.hyp import Reporter, make_settings, run_given
+
+    part = Part("survivors", RULE_S)
+    rep = Reporter(part, known)
+    clock = vclock.VClock(start_us=1_700_000_000_000_000, tick_us=0)
+    cinst = vclock.install(clock)
+    n_cache: dict[tuple[str, str], int] = {}
+
+    def n_effects(kind: str, role: str) -> int:
+        if (kind, role) not in n_cache:
+            n_cache[(kind, role)] = one_case(kind, role, 0, None, clock)["n_effects"]
+        return n_cache[(kind, role)]
+
+    roles = [r for r in ROLES if not r.startswith("client")]
+
+    @hypothesis.seed(seed)
+    @make_settings(examples)
+    @given(kind=st.sampled_from(["mem", "sqlite"]), role=st.sampled_from(roles), frac=st.integers(0, 10_000), side=st.sampled_from(["before", "after", "none"]),
+           script=st.lists(st.tuples(st.integers(0, 1), st.sampled_from(SURVIVOR_ACTIONS)), max_size=12))
+    def test(kind: str, role: str, frac: int, side: str, script: list[tuple[int, str]]) -> None:
+        n = n_effects(kind, role)
+        point = None if side == "none" else (frac % n, side)
+        case = {"backend": kind, "role": role, "variant": 0, "point": point, "script": script}
+        rep.holder["case"] = case
+        r = one_case(kind, role, 0, point, clock, script)
+        rec = {w for w, a in script if a.startswith("rec_")}
+        pol = {w for w, a in script if a.startswith("poll_")}
+        part.case(key=(kind, role, point, tuple(script)), nontrivial=bool(rec and pol and (len(rec | pol) > 1)), classes=[f"backend_{kind}", f"role_{role}", f"len_{min(len(script), 12) // 4 * 4}", *(sorted({f"act_{a}" for _, a in script}))],
+                  sample=case)
+        for key, msg in r["failures"]:
+            rep.fail(key, msg)
+
+    try:
+        run_given(rep, test, "survivors")
     finally:
         cinst.uninstall()
     return part.dump()
@@ -346,17 +533,27 @@ def shard(kind: str, role: str, known: list[str]) -> dict:
 
 def run(ctx: Ctx) -> None:
     known = sorted(ctx.known_keys())
-    jobs = [(kind, role, known) for kind in ("mem", "sqlite") for role in ROLES]
+    variants = [0] if ctx.quick else [0, 1, 2]
+    sized = {"client-batch", "claim-plain", "recover-pending", "recover-running"}
+    jobs = [(kind, role, known, v) for kind in ("mem", "sqlite") for role in ROLES for v in variants if v == 0 or role in sized]
     merge_parts(ctx, pmap(shard, jobs))
+    nsh, per = (8, 40) if ctx.quick else (16, 600)
+    merge_parts(ctx, pmap(survivors_shard, [(ctx.seed * 1000 + i, per, known) for i in range(nsh)]))
     ctx.assumptions.append("a hard crash = Crash(BaseException) raised at an effect boundary of the acting role; every later effect of that actor is refused; SQLite transactions left open roll back; background history writes of the dead process are not counted as effects")
     ctx.assumptions.append("an invocation is accepted once the client call returned it: crashes inside the client's own routing call leave nothing accepted by that call (checked only for side effects on recovery)")
-    ctx.assumptions.append("surviving-runner interleavings are sequential here (recovery tasks, then drain, 3 rounds); concurrent survivors are covered by the C02/C06 schedule searches")
+    ctx.assumptions.append("surviving-runner interleavings are generated at operation granularity (whole recovery task / whole poll / whole run per step, two survivors); statement-level races between survivors are covered by the C02/C04/C06 schedule searches")
 
 
 def replay(case: dict) -> int:
     c = case["case"]
-    d = shard(c["backend"], c["role"], [])
-    bad = [v for v in d["violations"] if v["replay"].get("point") == c.get("point") or c.get("point") is None]
-    for v in bad:
-        print("REPRODUCED:", v["what"][:300])
-    return 1 if bad else 0
+    clock = vclock.VClock(start_us=1_700_000_000_000_000, tick_us=0)
+    cinst = vclock.install(clock)
+    try:
+        point = tuple(c["point"]) if c.get("point") else None
+        script = [tuple(x) for x in c.get("script") or []] or None
+        r = one_case(c["backend"], c["role"], c.get("variant", 0), point, clock, script)
+    finally:
+        cinst.uninstall()
+    for key, msg in r["failures"]:
+        print("REPRODUCED:", key, "::", msg[:300])
+    return 1 if r["failures"] else 0
